@@ -253,6 +253,16 @@ CHECKS = {
              "all environments and exports the expected forms; the real functions are called with module macros and with "
              "the macros argument, results compared node by node, and the input model must be unchanged.",
         note="Macro calls inside arguments are not expanded by these functions and are not generated."),
+    "C37": dict(
+        engine="macros", level="model_checking", design="5.7, 6/C37",
+        technique="TLC enumerates stream pairs of HyReaderMacros (read/evaluate alternation, per-module reader tables) "
+                  "with expected use results and failure points; streams written as module files, imported and compiled",
+        text="For two modules and two reader-macro names every stream of definitions, None-returning definitions, uses, "
+             "define-and-use-in-one-form items and require :readers is processed by the spec (a use needs an earlier "
+             "definition in the same module or a require; reading fails at the first unknown #name; earlier forms have "
+             "been evaluated); the real importer and hy_compile with a fresh HyReader must give the same results, errors "
+             "and per-module tables, and leave no current reader behind.",
+        note="If module A fails to import, module B (which may require A) is not run."),
     "C38": dict(
         engine="gensym", level="model_checking", design="5.8, 6/C38",
         technique="TLC exhaustive interleavings of the op program extracted from gensym's bytecode; "
